@@ -462,7 +462,8 @@ def rdataset_history(ctx, rng, t, pool, foreign, owner):
         i = rng.randrange(2)
         j = 1 - i if rng.random() < 0.8 else i
         r, m, o, om = rs[i], ms[i], rs[j], ms[j]
-        op = rng.choice(("add", "add", "add_ttl", "add_foreign", "union_update", "intersection_update", "update", "difference_update", "remove", "copy", "eq"))
+        op = rng.choice(("add", "add", "add_ttl", "add_foreign", "union_update", "intersection_update", "update", "difference_update", "remove", "copy", "eq",
+                         "symmetric_difference_update", "ixor", "copying", "foreign_operand"))
         trace.append((op, i, j))
         try:
             if op in ("add", "add_ttl"):
@@ -529,6 +530,77 @@ def rdataset_history(ctx, rng, t, pool, foreign, owner):
             elif op == "difference_update":
                 r.difference_update(o)
                 m["k"] = {} if o is r else {k: v for k, v in m["k"].items() if k not in om["k"]}
+            elif op in ("symmetric_difference_update", "ixor"):
+                if op == "ixor":
+                    r ^= o
+                    if r is not rs[i]:
+                        ctx.violation(f"rdataset-inplace-operator-rebinds:{t}", f"{trace}", None)
+                        return
+                else:
+                    r.symmetric_difference_update(o)
+                if o is r:
+                    m["k"] = {}
+                else:
+                    # elements of exactly one side; what is added goes through the same door as add(): TTL minimum,
+                    # singleton replacement, covered-type adoption
+                    overlap = [k for k in m["k"] if k in om["k"]]
+                    m_update_ttl(m, om["ttl"])
+                    for k, rd in list(om["k"].items()):
+                        if singleton and m["k"] and k not in m["k"]:
+                            m["k"] = {}
+                        m["k"].setdefault(k, rd)
+                    if sig and om["k"] and not (m["covers"]):
+                        m["covers"] = om["covers"]
+                    for k in overlap:
+                        m["k"].pop(k, None)
+            elif op == "copying":
+                # copying forms: operands untouched, result is what the in-place form gives on a copy
+                which = rng.choice(("|", "&", "-", "^", "+"))
+                trace[-1] = (op + which, i, j)
+                snap = [(list(map(rd_key, x)), x.ttl) for x in rs]
+                c = {"|": lambda: r | o, "&": lambda: r & o, "-": lambda: r - o, "^": lambda: r ^ o, "+": lambda: r + o}[which]()
+                if [(list(map(rd_key, x)), x.ttl) for x in rs] != snap:
+                    ctx.violation(f"rdataset-copying-operator-changed-operand:{t}:{which}", f"{trace}", None)
+                    return
+                c2 = r.copy()
+                {"|": c2.union_update, "&": c2.intersection_update, "-": c2.difference_update, "^": c2.symmetric_difference_update, "+": c2.union_update}[which](o if o is not r else c2)
+                if c is r or c is o or type(c) is not type(r) or list(map(rd_key, c)) != list(map(rd_key, c2)) or c.ttl != c2.ttl or c.covers != c2.covers:
+                    ctx.violation(f"rdataset-copying-operator-differs-from-inplace-on-copy:{t}:{which}", f"{trace}: {list(c)} ttl {c.ttl} vs {list(c2)} ttl {c2.ttl}", None)
+                    return
+                ks, ko = set(m["k"]), set(om["k"])
+                want = {"|": ks | ko, "&": ks & ko, "-": ks - ko, "^": ks ^ ko, "+": ks | ko}[which]
+                if not singleton and set(map(rd_key, c)) != want:
+                    ctx.violation(f"rdataset-copying-operator-not-set-theory:{t}:{which}", f"{trace}", None)
+                    return
+            elif op == "foreign_operand":
+                # a set of another type as operand: nothing of it may end up in this set
+                fo = dns.rdataset.Rdataset(foreign[0].rdclass, foreign[0].rdtype)
+                for x in foreign[: rng.randint(1, 3)]:
+                    if (x.rdclass, x.rdtype) == (fo.rdclass, fo.rdtype) and (not fo or x.covers() == fo.covers):
+                        fo.add(x, rng.choice((0, 5, 300)))
+                which = rng.choice(("union_update", "update", "symmetric_difference_update", "|", "^", "+"))
+                trace[-1] = (op + ":" + which, i, j)
+                before = list(map(rd_key, r))
+                try:
+                    if which in ("|", "^", "+"):
+                        res = {"|": lambda: r | fo, "^": lambda: r ^ fo, "+": lambda: r + fo}[which]()
+                    else:
+                        getattr(r, which)(fo)
+                        res = r
+                    refused = False
+                except dns.rdataset.IncompatibleTypes:
+                    refused, res = True, r
+                ctx.count("mon.foreign_operand_refused" if refused else "obs.foreign_operand_not_refused")
+                if any((x.rdclass, x.rdtype) != (rdclass, rdtype) for x in res) or any((x.rdclass, x.rdtype) != (rdclass, rdtype) for x in r):
+                    ctx.violation(f"rdataset-holds-record-of-other-type-after:{which}:{t}", f"{trace}", None)
+                    return
+                if not refused:
+                    ctx.violation(f"rdataset-operand-of-other-type-not-refused:{which}:{t}", f"{trace}", None)
+                    return
+                if list(map(rd_key, r)) != before:
+                    ctx.violation(f"rdataset-changed-by-refused-operand:{which}:{t}", f"{trace}", None)
+                    return
+                m["ttl"] = r.ttl  # the TTL after a refused operation is unspecified; resynchronise
             elif op == "remove":
                 if m["k"]:
                     k = rng.choice(list(m["k"]))
